@@ -86,3 +86,31 @@ package proposal
 //@   ensures {C01,C02} dispatch-commit-sends-nothing: old(proposal.Status.Phases.Apply) == nil ==> deviceSetCalls == old(deviceSetCalls)
 //@   ensures {C01} dispatch-abort-first: old(proposal.Status.Phases.Apply) == nil && old(proposal.Status.Phases.Abort) != nil ==> cfgValueWrites == old(cfgValueWrites)
 //@   ensures {C02} dispatch-no-merge-after-apply-started: old(proposal.Status.Phases.Apply) != nil ==> cfgValueWrites == old(cfgValueWrites)
+
+// t is an ancestor of path on the chain of parent paths (a non-empty prefix of path that is followed by "/")
+//@ opaque spec slashPrefix(path string, t string) bool = t != "" && hasPrefix(path, t + "/")
+//@ spec tomb(values map[string]*configapi.PathValue, t string) bool = (t in values) && values[t] != nil && values[t].Deleted
+
+// String facts about the parent chain, proved once with the definition revealed.
+//@ lemma {C03} slashPrefix-shorter: forall x string, t string :: slashPrefix(x, t) ==> len(t) < len(x) && t != x && t != ""
+//@ lemma {C03} slashPrefix-trans: forall x string, p string, t string :: slashPrefix(x, p) && slashPrefix(p, t) ==> slashPrefix(x, t)
+//@ lemma {C03} slashPrefix-linear: forall x string, p string, t string :: slashPrefix(x, p) && slashPrefix(x, t) && len(t) < len(p) ==> slashPrefix(p, t)
+//@ lemma {C03} slashPrefix-same-length: forall x string, p string, t string :: slashPrefix(x, p) && slashPrefix(x, t) && len(t) == len(p) ==> t == p
+//@ lemma {C03} parent-is-longest-slashPrefix: forall x string, r string, t string :: r != "" && hasPrefix(x, r + "/") && !contains(substr(x, len(r) + 1, len(x)), "/") && slashPrefix(x, t) ==> len(t) <= len(r)
+//@ lemma {C03} parent-is-slashPrefix: forall x string, r string :: r != "" && hasPrefix(x, r + "/") ==> slashPrefix(x, r)
+//@ lemma {C03} no-parent-no-slashPrefix: forall x string, t string :: !contains(substr(x, 1, len(x)), "/") ==> !slashPrefix(x, t)
+//@ lemma {C03} under-slash-is-slashPrefix: forall x string, t string :: slashPrefix(x, t) ==> under(x, t)
+
+//@ func applyChangeToConfig(values, path, value) (removedPath, removedValue)
+//@   props C03
+//@   use slashPrefix-shorter, slashPrefix-trans, slashPrefix-linear, slashPrefix-same-length
+//@   requires values != nil
+//@   modifies mapOf(values)
+//@   ensures {C03} value-stored: (path in values) && values[path] == value
+//@   ensures {C03} nearest-tombstone-removed: removedPath != "" ==> slashPrefix(path, removedPath) && old(tomb(values, removedPath)) && !(removedPath in values) && removedValue == old(values[removedPath]) && (forall t string :: slashPrefix(path, t) && len(t) > len(removedPath) ==> !old(tomb(values, t)))
+//@   ensures {C03} no-tombstone-on-parent-chain-otherwise: removedPath == "" ==> removedValue == nil && (forall t string :: slashPrefix(path, t) ==> !old(tomb(values, t)))
+//@   use under-slash-is-slashPrefix
+//@   ensures {C03} no-tombstone-above-live: value != nil && !value.Deleted ==> (forall t string :: tomb(values, t) ==> !under(path, t))
+//@   ensures {C03} only-tombstone-above-is-cleared: value != nil && !value.Deleted && (forall t string :: old(tomb(values, t)) && under(path, t) ==> removedPath != "" && t == removedPath) ==> (forall t string :: tomb(values, t) ==> !under(path, t))
+//@   ensures {C03} nothing-else-changes: forall k string :: k != path && k != removedPath ==> (k in values) == old(k in values) && values[k] == old(values[k])
+//@   loop 1 invariant (path in values) && values[path] == value && (parent == "" || slashPrefix(path, parent)) && (forall t string :: slashPrefix(path, t) && (parent == "" || len(t) > len(parent)) ==> !old(tomb(values, t))) && (forall k string :: k != path ==> (k in values) == old(k in values) && values[k] == old(values[k]))
